@@ -23,6 +23,28 @@ CLAIMS = {
   "by differential testing of the public Farkas test on perturbed multipliers (d_obj = 0 and infinite-bound cases included), hook-trace replay, "
   "and checkFarkas on every INFEASIBLE answer.",
   COMMON_NOTE + "As C01.", "DESIGN.md C02", "Lean 4 proof (Farkas soundness + driver invariant) with model/implementation correspondence check"),
+ "C08": ("proof",
+  "Partial (proof in layers). Proved in Lean: the number layer (every literal the writer can print is read back exactly by the scanner - C10's "
+  "scan_literal) and range_split (a ranged row and its two one-sided halves, which is how the LP writer renders it, have the same feasible set). Tied "
+  "to /repo end to end: named problems satisfying the precondition (all senses incl. range 0, all bound shapes, keyword-/exponent-/generated-looking "
+  "names, integer marks, 20-90 column problems whose expressions wrap, plain/.gz/.bz2) are written by the real writer, read back by the real reader and "
+  "compared by name as exact rationals; chains LP->MPS->LP; exact solves of original and read-back compared. The token-level emit/parse model of "
+  "lp.c/read_lp.c is not built, so below the number layer the round trip rests on the correspondence run.",
+  COMMON_NOTE + "Names needing repair by the writer are not generated.", "DESIGN.md C08",
+  "Lean 4 proofs of the number and range layers + write/read-back correspondence check on the real code"),
+ "C09": ("proof",
+  "As C08 for the MPS writer/reader: number layer and range semantics proved; write -> read-back -> compare by name incl. native RANGES (range 0 too), "
+  "negative RHS, all bound records, integer markers, objective sense/name sections; chains MPS->LP->MPS and agreement of the LP and MPS renderings of "
+  "one problem, on the real code.", COMMON_NOTE + "As C08.", "DESIGN.md C09",
+  "Lean 4 proofs of the number and range layers + write/read-back correspondence check on the real code"),
+ "C11": ("proof",
+  "Partial. Proved in Lean: the lexical number layer every numeric field passes through is total, consumes no more than it is given and never divides by "
+  "zero. Everything else is exhibited, not proved: valid files (from the real writers and an independent generator) with token-level mutations (repeated "
+  "sections introducing new names, 200-70000 character names, 30000-term lines, pathological literals), byte-level mutations, truncations, random "
+  "bytes, .gz/.bz2 containers (intact, truncated, corrupted, wrong extension, empty) and mutated basis files are each read in a forked ASan child with an "
+  "alarm; a returned problem must be dumpable, writable, solvable and freeable.",
+  COMMON_NOTE + "Memory safety of the unmodelled reader code (line buffers, symbol table, compression layer) is only exhibited by the sanitizer.",
+  "DESIGN.md C11", "Lean 4 totality proofs for the lexical layer + mutation-based exploration under sanitizers"),
  "C10": ("proof",
   "Lean theorem scan_literal: the transliterated state machine of mpq_EGlpNumReadStrXc consumes exactly, and yields exactly the rational denoted "
   "by, every literal [±]digits[.digits][e[±]digits] with any number of digits (0.1 is 1/10); plus totality, consumption bound and absence of "
